@@ -457,8 +457,10 @@ Definition k_order (n : nat) (g : list triple) (q : query) : bool :=
         end) sols) sols
   end.
 
-(** S9: a FILTER whose input chunk already carries a selection (a filter directly below, also
-    through UNION) recomputes the selection over all physical rows: rows dropped below come back *)
+(** S9 (repaired by df57ccb, kept as the description of the inputs that showed it; no longer part
+    of [k_class]): a FILTER whose input chunk already carries a selection (a filter directly below,
+    also through UNION) recomputed the selection over all physical rows: rows dropped below came
+    back *)
 Fixpoint sel_source (p : pat) : bool :=
   match p with
   | PFilter _ _ => true
@@ -480,12 +482,11 @@ Definition k_refilter (q : query) : bool := k_refilter_pat (q_pat q).
 Definition k_update (ts : list triple) : bool :=
   existsb (fun t => has_blank t || negb (triple_eqb (conv_triple t) t)) ts.
 
-(** the first class (1..9) that applies to a failing SELECT, 0 when none does *)
+(** the first class (1..8) that applies to a failing SELECT, 0 when none does *)
 Definition k_class (n : nat) (U : list term) (S : list str) (ds order : list itriple) (q : query) (o : qobs) : Z :=
   let g := map (utriple U) ds in
   if k_repvar q then 2
   else if k_union q then 6
-  else if k_refilter q then 9
   else if k_const q then 4
   else if k_render g q then 3
   else if k_filter n g q then 5
